@@ -129,3 +129,15 @@ Lemma tie_block_iter_seek : TIE_block_iter_seek =
    (1, "if(bytes_compare(ubuf_data(bi->key),ubuf_size(bi->key),target,target_len)>=0)");
    (2, "return")].
 Proof. reflexivity. Qed.
+
+(* mtbl/iter.c: mtbl_iter_seek *)
+Lemma tie_iter_seek : TIE_iter_seek =
+  [(0, "if(it==NULL)return(mtbl_res_failure)");
+   (0, "return(it->iter_seek(it->clos,key,len_key))")].
+Proof. reflexivity. Qed.
+
+(* mtbl/iter.c: mtbl_iter_next *)
+Lemma tie_iter_next : TIE_iter_next =
+  [(0, "if(it==NULL)return(mtbl_res_failure)");
+   (0, "return(it->iter_next(it->clos,key,len_key,val,len_val))")].
+Proof. reflexivity. Qed.
